@@ -122,19 +122,23 @@ Definition para_is_ref (l : list inline) : bool :=
   | _ => false
   end.
 
-(* to_graph_inlines: constructor for constructor (see Ast.v); the url of a note link loses
-   one `.md` suffix (document.rs:454-460 `strip_md`; the writer adds an extension back) *)
-Fixpoint to_ginline (i : inline) : inline :=
+(* to_graph_inlines: constructor for constructor (see Ast.v); a link to a note is kept by the KEY of
+   the note it names from the linking note's directory [dir] = key.parent(), exactly like a block
+   reference (document.rs:454-463 `Key::from_rel_link_url(&link.target.url, relative_to)`, which
+   also takes one `.md` off; the projector writes it relative to the note again and the writer adds
+   an extension back).  The pinned tree kept the url as written (`strip_md` only): findings
+   F-INLINEDIR / F-C05-inline-dir / F-C08-rawurl / F-C09-cross-dir-inline / F-C14-inline-dir, repaired. *)
+Fixpoint to_ginline (dir : string) (i : inline) : inline :=
   match i with
-  | Emph l => Emph (map to_ginline l)
-  | Strong l => Strong (map to_ginline l)
-  | Strike l => Strike (map to_ginline l)
+  | Emph l => Emph (map (to_ginline dir) l)
+  | Strong l => Strong (map (to_ginline dir) l)
+  | Strike l => Strike (map (to_ginline dir) l)
   | Link url title lt l =>
-      Link (if is_ref_url url then strip_md url else url) title lt (map to_ginline l)
-  | Image url title l => Image url title (map to_ginline l)
+      Link (if is_ref_url url then from_rel_link_url url dir else url) title lt (map (to_ginline dir) l)
+  | Image url title l => Image url title (map (to_ginline dir) l)
   | _ => i
   end.
-Definition to_ginlines (dir : string) (l : list inline) : list inline := map to_ginline l.
+Definition to_ginlines (dir : string) (l : list inline) : list inline := map (to_ginline dir) l.
 
 (* sections_builder.rs:258-266 starts_with_header (never asked about an empty range; Div, which the
    reader never produces, is not in the model) *)
